@@ -213,6 +213,9 @@ class DLPOLY_PairTabulationFactory(PairTabulationFactory):
     cutoffs = super(DLPOLY_PairTabulationFactory, self).extract_cutoffs(cp)
     if cutoffs.nr % 4 != 0:
       raise ConfigurationException("The number of rows in a DL_POLY TABLE file needs to be divisible by 4. Number of rows specified = {} ".format(cutoffs.nr))
+    if cutoffs.nr <= 4:
+      # The TABLE grid spacing is cutoff/(nr-4)
+      raise ConfigurationException("The number of rows in a DL_POLY TABLE file needs to be greater than 4. Number of rows specified = {} ".format(cutoffs.nr))
     return cutoffs
 
 class ADP_EAMTabulationFactory(EAMTabulationFactory):
